@@ -87,10 +87,10 @@ TItem == /\ IsEv("item") /\ st = "sent" /\ ~NothingOwed
                /\ e.cont = fr[k + 1].cont
                \* a reply that is reported as a general error (a standard service error, an error nobody
                \* declared, parameters of the wrong type) still is the reply owed to that call: it ends it
-               /\ e.cls \in {"success", "method_err", "service_err", "decode_err"}
+               /\ e.cls \in {"success", "method_err", "service_err", "decode_err", "eof"}   \* ("eof": a blank frame, see Framing)
                /\ cur' = c
                /\ open' = (e.cls = "success" /\ e.cont)
-               /\ gerr' = (e.cls \in {"service_err", "decode_err"})
+               /\ gerr' = (e.cls \in {"service_err", "decode_err", "eof"})
          /\ items' = items + 1
          /\ early' = IF \E j \in 0..Len(fr) : got = EndOf(j) THEN early ELSE early \cup {items + 1}
          /\ UNCHANGED <<cs, docs, st, nw, stale, kf, sid>>
